@@ -130,7 +130,7 @@ func c13Parse(body []byte) (doc yobj, ok bool) {
 
 var (
 	c13StepRe  = regexp.MustCompile(`migrating schema (\d+) to (\d+)`)
-	c13FrameRe = regexp.MustCompile(`configmigrate\.(?:\(\*?Migrator\)\.)?migrateTo(\d+)`)
+	c13FrameRe = regexp.MustCompile(`configmigrate\.(?:\(\*Migrator\)\.|Migrator\.)?migrateTo(\d+)`)
 )
 
 func c13ErrClass(err error) string {
@@ -716,13 +716,13 @@ func c13GenDoc(r *rand.Rand) (doc map[string]any, cur int) {
 	}
 	// bcrypt is slow (cost 10): a hashable password is rare.
 	if cur >= 0 && cur <= 4 {
-		switch x := r.IntN(100); {
+		switch x := r.IntN(200); {
 		case x < 2:
 			doc["auth_pass"] = vutil.Pick(r, []any{"secret", "", nil, strings.Repeat("p", 72)})
 			if r.IntN(4) > 0 {
 				doc["auth_name"] = "admin"
 			}
-		case x < 12:
+		case x < 24:
 			doc["auth_pass"] = vutil.Pick(r, []any{strings.Repeat("p", 73), 5, []any{"x"}, true})
 		}
 	} else if r.IntN(20) == 0 {
@@ -882,6 +882,28 @@ func c13CurOf(doc map[string]any) int {
 }
 
 func c13Gen(r *rand.Rand, emit vutil.Emit) {
+	if os.Getenv("VERIF_C13_EMIT_RAW") != "" {
+		// Used once to (re)build corpus/C13/cases.txt: every hand-written
+		// document, upgraded to 29 with every split point.
+		for _, d := range c13RawDocs {
+			cur := -1
+			if doc, ok := c13Parse([]byte(d)); ok {
+				cur = c13CurOf(doc)
+			}
+			stepTarget := "-"
+			var ks []string
+			if cur >= 0 && cur < 29 {
+				stepTarget = strconv.Itoa(cur + 1)
+				for k := cur; k <= 29; k++ {
+					ks = append(ks, strconv.Itoa(k))
+				}
+			}
+			c13Emit(emit, 29, stepTarget, ks, []byte(d))
+		}
+
+		return
+	}
+
 	n := vutil.N(3000)
 	for i := 0; i < n; i++ {
 		var body []byte
@@ -896,6 +918,10 @@ func c13Gen(r *rand.Rand, emit vutil.Emit) {
 			}
 			if r.IntN(6) == 0 {
 				doc["schema_version"] = r.IntN(30)
+			}
+			// bcrypt is slow (cost 10): most golden documents lose the password.
+			if _, has := doc["auth_pass"]; has && r.IntN(8) > 0 {
+				delete(doc, "auth_pass")
 			}
 			body, _ = yaml.Marshal(doc)
 		default:
@@ -926,13 +952,22 @@ func c13Gen(r *rand.Rand, emit vutil.Emit) {
 		if hi < lo {
 			hi = lo
 		}
-		if vutil.Thorough() && r.IntN(4) == 0 {
+		every := 6
+		if vutil.Thorough() {
+			every = 2
+		}
+		if r.IntN(every) == 0 {
+			// every split point of the version range
 			for k := lo; k <= hi; k++ {
 				ks = append(ks, strconv.Itoa(k))
 			}
 		} else {
-			nk := 3
-			for j := 0; j < nk; j++ {
+			// just after the first step (the split most likely to be followed
+			// by a failing step) and two random ones
+			if lo+1 <= hi {
+				ks = append(ks, strconv.Itoa(lo+1))
+			}
+			for j := 0; j < 2; j++ {
 				ks = append(ks, strconv.Itoa(lo+r.IntN(hi-lo+1)))
 			}
 			if r.IntN(10) == 0 {
